@@ -29,6 +29,10 @@ def build_plan():
             if op == 'send' and f == 'refuse':
               continue
             plan.append((tr, sk, conn_ord, op, ordinal, f))
+    # the peer answers one request and closes the connection in the same instant
+    for how in ('fin', 'rst'):
+      for k in (0, 1, 2):
+        plan.append((tr, 'reply+close', 0, 'srvclose', k, how))
   return plan
 
 
@@ -40,7 +44,7 @@ class C08(BaseCheck):
   LEVEL = 'fault_enumeration'
   RULE = ('enumerated space = {serial Thrift transport x skeletons open/one/two/after-timeout/chunked, '
           'ThriftMux transport x skeletons open(incl. initial ping)/one/three concurrent/timed-out+one/'
-          'queued(stalled writer)/ping} x connection ordinal {0,1} x op {connect; send 0-3; recv 0-9} x fault '
+          'queued(stalled writer)/ping} + {reply and close (FIN/RST) in one instant on request 0/1/2} x connection ordinal {0,1} x op {connect; send 0-3; recv 0-9} x fault '
           '{exception, EOF, refusal, silence}; quick and thorough both sweep it completely (thorough adds '
           'seeded timing variants per point). A point whose planned fault never fires (the skeleton performs '
           'fewer operations) is counted as not reached. Oracle per run: every request gets exactly one '
@@ -57,7 +61,7 @@ class C08(BaseCheck):
              'scales.scales_socket:ScalesSocket.open')
   REQUIRED_ANCHORS = ANCHORS
   REQUIRED_CLASSES = ('thrift', 'mux', 'fault:connect', 'fault:send', 'fault:recv', 'kind:error', 'kind:eof',
-                      'kind:refuse', 'kind:silence', 'reconnect-fault', 'probe', 'ping-silence')
+                      'kind:refuse', 'kind:silence', 'reconnect-fault', 'probe', 'ping-silence', 'reply-and-close-same-instant')
   ASSUMPTIONS = ('a silence fault (peer stops answering without closing) legitimately leaves the transport '
                  'open; only the probe clause applies then',)
   QUICK_WALL = 60
@@ -103,7 +107,9 @@ class C08(BaseCheck):
     srv = (servers.ThriftServer if tr == 'thrift' else servers.MuxServer)(net, 'th', port, Policy())
     if variant:
       srv.sim.connect_latency = rng.choice([0.0005, 0.01, 0.2])
-    if fkind is not None:
+    if op == 'srvclose':
+      classes.add('reply-and-close-same-instant')
+    elif fkind is not None:
       net.fault_plan[(srv.ep, conn_ord, op, ordinal)] = simnet.Fault(fkind)
       classes.add('fault:' + op)
       classes.add('kind:' + fkind)
@@ -129,6 +135,14 @@ class C08(BaseCheck):
                                                        err=type(msg.error).__name__ if msg.error else None)['seq'], msg))
     term = Term()
 
+    class RecStack(ClientMessageSinkStack):
+      """The request's real sink stack; additionally records messages that reach it when it is
+      already drained (i.e. after the request was completed)."""
+      def AsyncProcessResponse(self, stream, msg):
+        if not self.Any():
+          self.late.append((env.now, 'stream' if msg is None else type(getattr(msg, 'error', None)).__name__))
+        return ClientMessageSinkStack.AsyncProcessResponse(self, stream, msg)
+
     def request(T=1.0, act=None):
       key = 'k%d-%d' % (len(reqs), rng.getrandbits(16))
       if act is not None:
@@ -139,7 +153,8 @@ class C08(BaseCheck):
       msg = MethodCallMessage(ExtService.Iface, 'echo', (key,), {})
       msg.properties[MessageProperties.Endpoint] = None
       msg.properties[Deadline.KEY] = env.now + T
-      st = ClientMessageSinkStack()
+      st = RecStack()
+      st.late = r['late'] = []
       st.Push(term, r)
       r['issue_seq'] = env.emit('req.issue', rid=r['id'])['seq']
       gevent.spawn(top.AsyncProcessRequest, st, msg, None, {})
@@ -185,7 +200,20 @@ class C08(BaseCheck):
       env.advance(130)
       open_failed = open_ar.ready() and open_ar.exception is not None
     step(0.01, 'after open')
-    if tr == 'thrift':
+    if sk == 'reply+close':
+      # request #ordinal is answered and the connection closed (fin/rst) in the same instant
+      n_req = 1 if tr == 'thrift' else 3
+      for i in range(n_req):
+        d = 0.004 + 0.001 * i
+        act = {'delay': d}
+        if i == min(ordinal, n_req - 1):
+          act = {'delay': d, 'close': fkind, 'close_delay': d}
+        request(act=act)
+      env.advance(1.5)
+      if tr == 'thrift':
+        request()
+        env.advance(1.5)
+    elif tr == 'thrift':
       if sk == 'one':
         request()
         env.advance(1.5)
@@ -245,6 +273,8 @@ class C08(BaseCheck):
 
     # ---------------------------------------------------------------- oracle
     fired = list(net.faults_fired)
+    if op == 'srvclose':
+      fkind_label = 'server-' + fkind
     facts = {'transport': tr, 'skeleton': sk, 'op': op, 'fault': fkind}
     if fkind is not None and conn_ord == 1 and fired:
       classes.add('reconnect-fault')
@@ -258,6 +288,12 @@ class C08(BaseCheck):
           dict(facts, n=len(d)), {'faults_fired': [(f[0][2], f[0][3], f[1]) for f in fired]})
         continue
       m = d[0][2]
+      # failed by the transport (not by the caller's own timeout), then handed another message
+      out.obligations += 1
+      if m.error is not None and not isinstance(m.error, ScalesTimeout) and r['late']:
+        out.violate('request:second-message-after-failure', 'request %d was failed with %s and afterwards the '
+                    'transport delivered another message to its sink stack: %r' % (
+                      r['id'], type(m.error).__name__, r['late']), facts)
       if m.error is None and not (isinstance(m, MethodReturnMessage) and m.return_value == 'echo:' + r['key']):
         out.violate('request:wrong-value', 'request %d returned %r' % (r['id'], m.return_value), facts)
     # a hard fault on an established connection fails what is in flight at once
@@ -319,7 +355,7 @@ class C08(BaseCheck):
     transport.Close()
     env.advance(0.2)
     out.classes = sorted(classes)
-    out.nontrivial = bool(fired) or fkind is None
+    out.nontrivial = bool(fired) or fkind is None or op == 'srvclose'
     out.extra = {'faults_fired': len(fired), 'points_not_reached': 0 if (fired or fkind is None) else 1,
                  'requests': len(reqs), 'diag_greenlet_errors': len(env.errors)}
     out.sig = (tr, sk, conn_ord, op, ordinal, fkind)
